@@ -138,7 +138,7 @@ var silenceCfg = Cfg{Mask: 255, UDP: true, NMedias: 2, IdleMs: 500, ReadMs: 500,
 func attachSweep() (names []string, cases [][]string) {
 	for _, p := range sweepPrefixes() {
 		for _, attach := range []string{"", "getparameter", "options"} {
-			for _, action := range []string{"stay", "pause", "leave", "pause+leave"} {
+			for _, action := range []string{"stay", "pause", "leave", "pause+leave", "pause-answered-200-with-handler-error"} {
 				if p.state == "initial" && action != "stay" && action != "leave" {
 					continue
 				}
@@ -152,6 +152,9 @@ func attachSweep() (names []string, cases [][]string) {
 				}
 				if action == "pause" || action == "pause+leave" {
 					b.req(Req{Method: "pause", Sid: "0"})
+				}
+				if action == "pause-answered-200-with-handler-error" {
+					b.req(Req{Method: "pause", Sid: "0", HErr: true}) // the state changes, the connection is closed
 				}
 				if action == "leave" || action == "pause+leave" {
 					b.raw("close 0")
